@@ -1,7 +1,7 @@
 (* C11 — ONE whole-bus theorem for the union of the fragments: standard and enum signals, descriptions,
    attribute assignments of the four types (and hex) on bus, nodes, messages and signals together with the
-   six dedicated fields, and per message at most one multiplexer (standard or enum children in one group, several groups or fixed)
-   whose message may carry attributes on every signal, the multiplexer and its children included.
+   six dedicated fields, and per message any number of top-level multiplexers (standard or enum children in one group, several
+   groups or fixed) whose message may carry attributes on every signal, the multiplexers and their children included.
    Structure: RoundTripMux on the stripped bus; attribute layer: RoundTripAttr's, with the signals of a
    message located by name / id instead of by position (the importer re-orders the signals of a message that
    holds a multiplexer). *)
@@ -42,13 +42,6 @@ Section StripFacts.
     apply filter_In. split; [apply in_map; assumption|exact Htt].
   Qed.
 
-  Lemma mux_unique : forall a b, In a sigs -> In b sigs -> is_muxb a = true -> is_muxb b = true -> a = b.
-  Proof.
-    intros a b Ha Hb Hma Hmb. destruct Hms as [_ [_ [_ [Hu _]]]].
-    assert (E : strip_sig a = strip_sig b) by (apply Hu; try (apply in_map; assumption); assumption).
-    apply (NoDup_map_inj s_id sigs); [exact ids_nodup|assumption|assumption|]. apply (f_equal s_id) in E. exact E.
-  Qed.
-
   Lemma child_strip : forall c, In c sigs -> is_topb c = false ->
     exists mx, In mx sigs /\ is_topb mx = true /\ is_muxb mx = true /\ child_ok es (strip_sig mx) (strip_sig c).
   Proof.
@@ -65,7 +58,10 @@ Section StripFacts.
     - apply Forall_forall. intros c Hc. unfold children in Hc. apply Proofs.In_sort_by in Hc. apply filter_In in Hc. destruct Hc as [Hc Hp].
       destruct (s_parent c) as [q|] eqn:Ep; [|discriminate].
       destruct (child_strip c Hc ltac:(unfold is_topb; rewrite Ep; reflexivity)) as [mx' [Hmx' [_ [Hm' Hok]]]].
-      rewrite (mux_unique mx mx' Hmx Hmx' Hm Hm'). exact Hok.
+      assert (mx = mx').
+      { apply (NoDup_map_inj s_id sigs); [exact ids_nodup|assumption|assumption|]. destruct Hok as [_ [Hpar _]]. cbn [s_parent s_id strip_sig] in Hpar.
+        rewrite Ep in Hpar. apply Z.eqb_eq in Hp. inversion Hpar. congruence. }
+      subst mx'. exact Hok.
     - eapply Permutation_NoDup; [apply Permutation_map; apply sort_by_perm|]. apply NoDup_map_filter. exact names_nodup.
   Qed.
 End StripFacts.
@@ -150,16 +146,16 @@ Section GWalk.
   Qed.
 End GWalk.
 
-Lemma export_top_g : forall es sigs order msgid recs k s cms vs xs msgs sg L A,
+Lemma export_top_g : forall es sigs order msgid recs many k s cms vs xs msgs sg L A,
   NoDup (map s_id sigs) -> In s sigs -> top_ok es (strip_sig s) ->
   (is_muxb s = true -> Forall (fun c => child_ok es (strip_sig s) (strip_sig c)) (children sigs s) /\
                        NoDup (map (fun c => clear (s_name c)) (children sigs s))) ->
-  export_signal es sigs order msgid recs false (S k) s (gacx cms vs xs msgs sg L A)
-  = gacx (cms ++ flat_map (sig_cms msgid) (tx sigs s)) (vs ++ flat_map (venc_e es msgid) (tx sigs s)) (xs ++ texts msgid sigs s) msgs
+  export_signal es sigs order msgid recs many (S k) s (gacx cms vs xs msgs sg L A)
+  = gacx (cms ++ flat_map (sig_cms msgid) (tx sigs s)) (vs ++ flat_map (venc_e es msgid) (tx sigs s)) (xs ++ texts many msgid sigs s) msgs
          (sg ++ tdsigs es sigs order recs s) (fold_left enums_step (tx sigs s) L)
          (fold_left exp_t (flat_map (T_sig msgid) (tx sigs s)) A).
 Proof.
-  intros es sigs order msgid recs k s cms vs xs msgs sg L A Hids Hin Htop Hkids.
+  intros es sigs order msgid recs many k s cms vs xs msgs sg L A Hids Hin Htop Hkids.
   destruct Htop as [Hp [Hg [_ [_ [_ [Hr Hm]]]]]]. cbn [s_parent s_groups s_rel s_kind strip_sig s_size s_gcount s_gsize] in Hp, Hg, Hr, Hm.
   destruct (s_kind s) eqn:Ek.
   - unfold tdsigs, tx, texts, is_muxb. rewrite Ek. cbn [flat_map fold_left]. rewrite !app_nil_r. apply export_signal_gx.
@@ -182,54 +178,57 @@ Proof.
     rewrite Hcm. fold (wk_sig s). rewrite asgs_gacx. fold (T_sig msgid s).
     change (add_sig ?d (gacx ?c ?v ?x ?m ?g ?l ?a)) with (gacx c v x m (g ++ [d]) l a).
     set (cms1 := cms ++ (if String.eqb (s_desc s) EmptyString then [] else [mkdcomment OSignal (s_desc s) EmptyString msgid (clear (s_name s))])).
-    destruct (walk_outer es sigs order msgid recs false s Hg1 HKg HKn k (Z.to_nat (s_gcount s)) 0
-                (gacx cms1 vs xs msgs (sg ++ [mux_dsig order recs s]) L (fold_left exp_t (T_sig msgid s) A)) [] [] false ltac:(lia) ltac:(lia)) as [gmap' [E EG]].
+    destruct (walk_outer es sigs order msgid recs many s Hg1 HKg HKn k (Z.to_nat (s_gcount s)) 0
+                (gacx cms1 vs xs msgs (sg ++ [mux_dsig order recs s]) L (fold_left exp_t (T_sig msgid s) A)) [] [] many false ltac:(lia) ltac:(lia)) as [gmap' [E EG]].
     { intros c _. cbn. reflexivity. }
     match goal with |- context[fold_left ?f (zrange 0 ?n) ?init] =>
       replace (fold_left f (zrange 0 n) init) with
-        (fold_left (xstep es sigs order msgid recs false k) (wpairs sigs s (zrange 0 (Z.to_nat (s_gcount s))))
+        (fold_left (xstep es sigs order msgid recs many k) (wpairs sigs s (zrange 0 (Z.to_nat (s_gcount s))))
                    (gacx cms1 vs xs msgs (sg ++ [mux_dsig order recs s]) L (fold_left exp_t (T_sig msgid s) A)),
-         [] ++ map (fun c => clear (s_name c)) (wall sigs s (zrange 0 (Z.to_nat (s_gcount s)))), gmap', false,
+         [] ++ map (fun c => clear (s_name c)) (wall sigs s (zrange 0 (Z.to_nat (s_gcount s)))), gmap', many,
          false || existsb (fun id => existsb (fun c => in_group c id && negb (id =? grp c)) (children sigs s)) (zrange 0 (Z.to_nat (s_gcount s))))
         by (symmetry; exact E) end.
     cbn [orb app].
-    rewrite (xsteps_gacx es sigs order msgid recs false s Hids Hin Hp HK).
+    rewrite (xsteps_gacx es sigs order msgid recs many s Hids Hin Hp HK).
     set (W := wall sigs s (zrange 0 (Z.to_nat (s_gcount s)))).
     assert (HW : forall c, In c W -> In c (children sigs s)).
     { intros c Hc. unfold W, wall in Hc. apply in_flat_map in Hc. destruct Hc as [id [_ Hc]]. apply filter_In in Hc. tauto. }
+    assert (HGm : forall c, In c W -> lookup String.eqb (clear (s_name c)) gmap' = Some (mem_of (s_gcount s) c)).
+    { intros c Hc. rewrite (EG c (HW c Hc)). rewrite Forall_forall in HKg. rewrite (vis_all s c (HKg c (HW c Hc)) Hg1).
+      pose proof (mem_of_nonempty s c (HKg c (HW c Hc))) as Hne. destruct (mem_of (s_gcount s) c); [contradiction|reflexivity]. }
     assert (Hfin : forall acc,
-      (if negb (existsb (fun id => existsb (fun c => in_group c id && negb (id =? grp c)) (children sigs s)) (zrange 0 (Z.to_nat (s_gcount s)))) && negb false
+      (if negb (existsb (fun id => existsb (fun c => in_group c id && negb (id =? grp c)) (children sigs s)) (zrange 0 (Z.to_nat (s_gcount s)))) && negb many
        then acc
        else fold_left (fun acc cn0 =>
               let g := match lookup String.eqb cn0 gmap' with Some g => g | None => [] end in
-              if negb false && Nat.eqb (length g) 1 then acc
+              if negb many && Nat.eqb (length g) 1 then acc
               else add_extmux (mkdextmux msgid (clear (s_name s)) cn0 (ranges_of g)) acc) (map (fun c => clear (s_name c)) W) acc)
-      = fold_left (fun a e => add_extmux e a) (flat_map (ext_of msgid s) W) acc).
-    { intros acc. destruct (existsb _ (zrange 0 (Z.to_nat (s_gcount s)))) eqn:Ee; cbn [negb andb].
-      - apply (ext_fold msgid s gmap' W acc). intros c Hc. rewrite (EG c (HW c Hc)).
-        rewrite Forall_forall in HKg. rewrite (vis_all s c (HKg c (HW c Hc)) Hg1).
-        pose proof (mem_of_nonempty s c (HKg c (HW c Hc))) as Hne. destruct (mem_of (s_gcount s) c); [contradiction|reflexivity].
-      - replace (flat_map (ext_of msgid s) W) with (@nil dextmux); [reflexivity|].
-        symmetry. induction W as [|c r IHW]; [reflexivity|]. cbn [flat_map].
-        rewrite (no_revisit sigs msgid s Hg1 HKg Ee c (HW c (or_introl eq_refl))). apply IHW. intros x Hx. apply HW. right. assumption. }
+      = fold_left (fun a e => add_extmux e a) (flat_map (ext_of msgid s many) W) acc).
+    { intros acc. destruct many.
+      - rewrite andb_false_r. apply (ext_fold msgid s true gmap' W acc HGm).
+      - destruct (existsb _ (zrange 0 (Z.to_nat (s_gcount s)))) eqn:Ee; cbn [negb andb].
+        + apply (ext_fold msgid s false gmap' W acc HGm).
+        + replace (flat_map (ext_of msgid s false) W) with (@nil dextmux); [reflexivity|].
+          symmetry. clear HGm. induction W as [|c r IHW]; [reflexivity|]. cbn [flat_map].
+          rewrite (no_revisit sigs msgid s Hg1 HKg Ee c (HW c (or_introl eq_refl))). apply IHW. intros x Hx. apply HW. right. assumption. }
     rewrite Hfin.
     change (gacx ?c ?v xs ?m ?g ?l ?a) with (with_ext xs (gacx c v [] m g l a)). rewrite fold_add_extmux.
     unfold with_ext, gacx, cms1, W. cbn [ea_comments ea_attrs ea_attrdefs ea_attrvals ea_valencs ea_messages ea_sigs ea_names ea_enums].
     unfold walk_of. rewrite fold_left_app, <- !app_assoc. reflexivity.
 Qed.
 
-Lemma export_tops_g : forall es sigs order msgid recs k l cms vs xs msgs sg L A,
+Lemma export_tops_g : forall es sigs order msgid recs many k l cms vs xs msgs sg L A,
   NoDup (map s_id sigs) ->
   (forall s, In s l -> In s sigs /\ top_ok es (strip_sig s) /\
      (is_muxb s = true -> Forall (fun c => child_ok es (strip_sig s) (strip_sig c)) (children sigs s) /\
                           NoDup (map (fun c => clear (s_name c)) (children sigs s)))) ->
-  fold_left (fun a s => export_signal es sigs order msgid recs false (S k) s a) l (gacx cms vs xs msgs sg L A)
+  fold_left (fun a s => export_signal es sigs order msgid recs many (S k) s a) l (gacx cms vs xs msgs sg L A)
   = gacx (cms ++ flat_map (sig_cms msgid) (flat_map (tx sigs) l)) (vs ++ flat_map (venc_e es msgid) (flat_map (tx sigs) l))
-         (xs ++ flat_map (texts msgid sigs) l) msgs
+         (xs ++ flat_map (texts many msgid sigs) l) msgs
          (sg ++ flat_map (tdsigs es sigs order recs) l) (fold_left enums_step (flat_map (tx sigs) l) L)
          (fold_left exp_t (flat_map (T_sig msgid) (flat_map (tx sigs) l)) A).
 Proof.
-  intros es sigs order msgid recs k l. induction l as [|s r IH]; intros cms vs xs msgs sg L A Hids H; cbn [fold_left flat_map].
+  intros es sigs order msgid recs many k l. induction l as [|s r IH]; intros cms vs xs msgs sg L A Hids H; cbn [fold_left flat_map].
   - rewrite !app_nil_r. reflexivity.
   - destruct (H s (or_introl eq_refl)) as [H1 [H2 H3]]. rewrite export_top_g by assumption.
     rewrite IH by (try assumption; intros x Hx; apply H; right; assumption).
@@ -301,9 +300,7 @@ Proof.
       pose proof (top_size_pos es (strip_sig t) (Hl t (or_introl eq_refl))) as Hpos. cbn [s_rel strip_sig] in *. lia. }
     eapply G; [|exact Hlay]. intros t Ht. apply Htops. assumption. }
   rewrite (sort_by_ascending s_rel) by exact Hasc.
-  assert (Hmany : Nat.ltb 1 (length (filter (fun s => match s_kind s with KMux => true | _ => false end) (filter is_topb (m_signals m)))) = false).
-  { pose proof (mux_count es _ Hms) as Hc. rewrite !filter_map_comm, map_length in Hc. exact Hc. }
-  rewrite Hmany.
+  fold (many_of (m_signals m)).
   assert (Hacc : (if String.eqb (m_desc m) EmptyString then gacx cms vs xs msgs sigs0 L A
                     else add_comment (mkdcomment OMessage (m_desc m) EmptyString (u32 (m_canid m)) EmptyString) (gacx cms vs xs msgs sigs0 L A))
                  = gacx (cms ++ opt_cm (m_desc m) (mkdcomment OMessage (m_desc m) EmptyString (u32 (m_canid m)) EmptyString)) vs xs msgs sigs0 L A).
@@ -382,6 +379,18 @@ Proof.
   exists L1. cbv zeta in E. rewrite E. unfold grouped in Hg. rewrite Hg. unfold amdoc, AM_of, TM_bus, bus_exts. rewrite fold_left_app. cbn. reflexivity.
 Qed.
 
+(* export order and stripping commute *)
+Lemma walk_of_strip : forall sigs t, walk_of (map strip_sig sigs) (strip_sig t) = map strip_sig (walk_of sigs t).
+Proof.
+  intros sigs t. unfold walk_of. cbn [s_gcount strip_sig]. rewrite children_strip, map_flat_map.
+  apply flat_map_ext_in_simple. intros id _. rewrite filter_map_comm. reflexivity.
+Qed.
+Lemma SX_strip_msg : forall m, SX (strip_msg m) = map strip_sig (SX m).
+Proof.
+  intros m. unfold SX. cbn [m_signals strip_msg]. rewrite filter_map_comm. change (fun x => is_topb (strip_sig x)) with is_topb.
+  induction (filter is_topb (m_signals m)) as [|t r IH]; [reflexivity|]. cbn [map flat_map]. rewrite map_app, IH. f_equal.
+  unfold tx. cbn [map]. change (is_muxb (strip_sig t)) with (is_muxb t). destruct (is_muxb t); [rewrite walk_of_strip|]; reflexivity.
+Qed.
 (* ---------------- the export order is a permutation of the signals ---------------- *)
 Section SXFacts.
   Variables (es : list enum_def) (names : list string) (m : message).
@@ -396,45 +405,19 @@ Section SXFacts.
     unfold children in Hs. apply Proofs.In_sort_by in Hs. apply filter_In in Hs. tauto.
   Qed.
 
-  Lemma SX_strip : forall mx, In mx sigs -> is_muxb mx = true -> S0 (strip_msg m) (strip_sig mx) = map strip_sig (SX m).
-  Proof.
-    intros mx Hmx Hm. unfold S0, SX. cbn [m_signals strip_msg]. rewrite filter_map_comm. change (fun x => is_topb (strip_sig x)) with is_topb.
-    assert (G : forall l, (forall t, In t l -> In t sigs) ->
-              flat_map (fun t => t :: (if is_muxb t then walk_kids (strip_msg m) (strip_sig mx) else [])) (map strip_sig l)
-              = map strip_sig (flat_map (fun t => t :: (if is_muxb t then walk_of (m_signals m) t else [])) l)).
-    { induction l as [|t r IH]; intros Hl; [reflexivity|]. cbn [map flat_map]. rewrite map_app, IH by (intros x Hx; apply Hl; right; assumption).
-      cbn [map app]. f_equal. f_equal. change (is_muxb (strip_sig t)) with (is_muxb t). destruct (is_muxb t) eqn:E; [|reflexivity].
-      assert (t = mx) by (apply (mux_unique es names m Hmm); try assumption; apply Hl; left; reflexivity). subst t.
-      unfold walk_kids, walk_of. cbn [m_signals strip_msg s_gcount strip_sig]. rewrite children_strip, map_flat_map.
-      apply flat_map_ext_in_simple. intros id _. rewrite filter_map_comm. reflexivity. }
-    apply G. intros t Ht. apply filter_In in Ht. tauto.
-  Qed.
-
   Lemma SX_perm : Permutation sigs (SX m).
   Proof.
     pose proof (ids_nodup es names m Hmm) as Hids. assert (Hnd : NoDup sigs) by (eapply NoDup_map_inv; exact Hids).
-    destruct (existsb is_muxb sigs) eqn:Ex.
-    - apply existsb_exists in Ex. destruct Ex as [mx [Hmx Hm]].
-      pose proof (S0_perm es (strip_msg m) (strip_sig mx) names Hmm (in_map strip_sig _ _ Hmx) Hm) as HP. cbn [m_signals strip_msg] in HP.
-      rewrite (SX_strip mx Hmx Hm) in HP.
-      apply NoDup_Permutation; [assumption| |].
-      + assert (Hn2 : NoDup (map strip_sig (SX m))).
-        { eapply Permutation_NoDup; [exact HP|]. apply (NoDup_map_inv s_id). rewrite map_map. exact Hids. }
-        eapply NoDup_map_inv. exact Hn2.
-      + intros s. split; [|apply SX_in].
-        intros Hs. assert (Hin : In (strip_sig s) (map strip_sig (SX m))) by (eapply Permutation_in; [exact HP|apply in_map; assumption]).
-        apply in_map_iff in Hin. destruct Hin as [s2 [E Hs2]].
-        assert (s2 = s) by (apply (NoDup_map_inj s_id sigs); [assumption|apply SX_in; assumption|assumption|apply (f_equal s_id) in E; exact E]).
-        subst. assumption.
-    - assert (Hnm : forall s, In s sigs -> is_muxb s = false).
-      { intros s Hs. destruct (is_muxb s) eqn:E; [|reflexivity]. assert (existsb is_muxb sigs = true) by (apply existsb_exists; eauto). congruence. }
-      assert (Hall : filter is_topb sigs = sigs).
-      { apply filter_all. intros s Hs. destruct (is_topb s) eqn:Et; [reflexivity|]. exfalso.
-        destruct (child_strip es names m Hmm s Hs Et) as [mx [Hmx [_ [Hm _]]]]. rewrite (Hnm mx Hmx) in Hm. discriminate. }
-      unfold SX. fold sigs. rewrite Hall.
-      assert (G : forall l, (forall s, In s l -> is_muxb s = false) -> flat_map (fun t => t :: (if is_muxb t then walk_of sigs t else [])) l = l).
-      { induction l as [|t r IH]; intros Hl; [reflexivity|]. cbn [flat_map]. rewrite (Hl t (or_introl eq_refl)), IH by (intros x Hx; apply Hl; right; assumption). reflexivity. }
-      rewrite G by assumption. apply Permutation_refl.
+    pose proof (SXg_perm es names (strip_msg m) Hmm) as HP. cbn [m_signals strip_msg] in HP. rewrite SX_strip_msg in HP.
+    apply NoDup_Permutation; [assumption| |].
+    + assert (Hn2 : NoDup (map strip_sig (SX m))).
+      { eapply Permutation_NoDup; [exact HP|]. apply (NoDup_map_inv s_id). rewrite map_map. exact Hids. }
+      eapply NoDup_map_inv. exact Hn2.
+    + intros s. split; [|apply SX_in].
+      intros Hs. assert (Hin : In (strip_sig s) (map strip_sig (SX m))) by (eapply Permutation_in; [exact HP|apply in_map; assumption]).
+      apply in_map_iff in Hin. destruct Hin as [s2 [E Hs2]].
+      assert (s2 = s) by (apply (NoDup_map_inj s_id sigs); [assumption|apply SX_in; assumption|assumption|apply (f_equal s_id) in E; exact E]).
+      subst. assumption.
   Qed.
 
   Lemma SX_names : NoDup (map (fun s => clear (s_name s)) (SX m)).
@@ -828,19 +811,19 @@ Proof.
 Qed.
 
 Lemma base_mux : forall names es st ms mx mid gs EI S',
-  mmessage es names ms -> In mx (m_signals ms) -> is_muxb mx = true ->
+  mmessage es names ms -> In mx (m_signals ms) -> is_muxb mx = true -> one_mux (m_signals ms) ->
   (forall s, In s (m_signals ms) -> enum_wf (e_of es s)) ->
   (forall s, In s (m_signals ms) -> s <> mx -> EIok es st s (EI s)) ->
   Permutation (m_signals ms) S' -> In (mid, mx) (index_from 0 S') ->
   Base es (is_enums st) ms (mkmessage (m_canid ms) (clear (m_name ms)) (m_size ms) (m_order ms) 0 0 0 0 (clear (m_sender ms)) (recs_in ms) (m_desc ms) []
                             (mux_result mx mid gs EI S')).
 Proof.
-  intros names es st ms mx mid gs EI S' Hmm Hmx Hmxm Hwf HEI HpS Hmid.
+  intros names es st ms mx mid gs EI S' Hmm Hmx Hmxm Huniq Hwf HEI HpS Hmid.
   exists (m_order ms), (mux_result mx mid gs EI S'). split; [reflexivity|]. split; [reflexivity|].
   split; [apply (R_ids es names ms mx mid gs EI S'); assumption|].
-  pose proof (R_map es names ms mx mid gs EI S' Hmm Hmx Hmxm HpS) as HRm.
-  pose proof (XY_perm es names ms mx mid S' Hmm Hmx Hmxm HpS Hmid) as HXY.
-  pose proof (Fimg_facts es names ms mx mid gs EI S' Hmm Hmx Hmxm HpS) as HF.
+  pose proof (R_map es names ms mx mid gs EI S' Hmm Hmx Hmxm Huniq HpS) as HRm.
+  pose proof (XY_perm es names ms mx mid S' Hmm Hmx Hmxm Huniq HpS Hmid) as HXY.
+  pose proof (Fimg_facts ms mx mid gs EI S' Hmx Hmxm Huniq HpS) as HF.
   split.
   { rewrite HRm, map_map.
     eapply Permutation_trans; [apply Permutation_map; apply Permutation_sym; exact HXY|].
@@ -853,16 +836,52 @@ Proof.
   exists (Fimg mx mid gs EI (i, s)). split.
   { rewrite HRm. apply in_map. eapply Permutation_in; [exact HXY|exact Hi]. }
   refine (conj F1 (conj F2 (conj F3 (conj F4 _)))).
-  apply (proj_pt es st names ms mx mid gs EI S' Hmm Hmx Hmxm Hwf HEI HpS Hmid (i, s) Hi).
+  apply (proj_pt es st names ms mx mid gs EI S' Hmm Hmx Hmxm Huniq Hwf HEI HpS Hmid (i, s) Hi).
+Qed.
+
+Lemma FM_zero : forall es m MU X EI st1 p,
+  s_attrs (FM es m MU X EI st1 p) = [] /\ s_startval (FM es m MU X EI st1 p) = fl_zero /\ s_sendtype (FM es m MU X EI st1 p) = 0.
+Proof.
+  intros es m MU X EI st1 p. unfold FM. destruct (is_muxb (snd p)); [cbn; auto|].
+  destruct (rimg_fields (fst p) (snd p) (EI (snd p))) as [_ [_ [_ [F4 [F5 F6]]]]].
+  destruct (is_topb (snd p)); cbn [s_attrs s_startval s_sendtype timg kimg place]; auto.
+Qed.
+
+Lemma base_multi : forall names es st ms EI S' st1,
+  mmessage es names ms ->
+  (forall s, In s (m_signals ms) -> enum_wf (e_of es s)) ->
+  (forall s, In s (m_signals ms) -> is_muxb s = false -> EIok es st s (EI s)) ->
+  Permutation (m_signals ms) S' ->
+  Base es (is_enums st) ms (mkmessage (m_canid ms) (clear (m_name ms)) (m_size ms) (m_order ms) 0 0 0 0 (clear (m_sender ms)) (recs_in ms) (m_desc ms) []
+                            (multi_result es ms EI st1 S')).
+Proof.
+  intros names es st ms EI S' st1 Hmm Hwf HEI HpS.
+  exists (m_order ms), (multi_result es ms EI st1 S'). split; [reflexivity|]. split; [reflexivity|].
+  unfold multi_result. cbv zeta.
+  split; [apply (RM_ids es names ms EI S' st1 Hmm HpS)|].
+  pose proof (XYM_perm es names ms S' Hmm HpS) as HXY.
+  split.
+  { rewrite map_map.
+    eapply Permutation_trans; [apply Permutation_map; apply Permutation_sym; exact HXY|].
+    rewrite (map_ext _ (fun p => clear (s_name (snd p)))) by (intros p; apply (FM_name es ms EI S' st1 p)).
+    rewrite <- (map_map snd (fun s => clear (s_name s))), Proofs.index_from_snd.
+    apply Permutation_map. apply Permutation_sym. exact HpS. }
+  intros s Hs. assert (Hs' : In s S') by (eapply Permutation_in; [exact HpS|exact Hs]).
+  destruct (in_index_from S' 0 s Hs') as [i Hi].
+  destruct (FM_zero es ms (filter (fun p : Z * signal => is_muxb (snd p)) (index_from 0 S')) (index_from 0 S') EI st1 (i, s)) as [F2 [F3 F4]].
+  eexists. split; [apply (RM_in es names ms EI S' st1 Hmm HpS (i, s) Hi)|].
+  refine (conj (FM_name es ms EI S' st1 (i, s)) (conj F2 (conj F3 (conj F4 _)))).
+  apply (proj_ptM es st names ms EI S' st1 Hmm Hwf HEI HpS (i, s) Hi).
 Qed.
 
 Lemma base_of_Rmsg_m : forall names es st ms m',
   mmessage es names ms -> (forall s, In s (m_signals ms) -> enum_wf (e_of es s)) ->
   Rmsg_m es st ms m' -> Base es (is_enums st) ms m'.
 Proof.
-  intros names es st ms m' Hmm Hwf [[Hnm HR]|[mx [mid [gs [S' [EI [Hmx [Hmxm [-> [HpS [Hmid [Hgs HEI]]]]]]]]]]]].
+  intros names es st ms m' Hmm Hwf [[Hnm HR]|[[mx [mid [gs [S' [EI [Hmx [Hmxm [Huniq [-> [HpS [Hmid [Hgs HEI]]]]]]]]]]]]|[S' [EI [st1 [Hmany [-> [HpS HEI]]]]]]]].
   - destruct (mmessage_plain es names ms Hmm Hnm) as [Hem _]. eapply base_plain; eauto.
   - apply (base_mux names); assumption.
+  - apply (base_multi names); assumption.
 Qed.
 
 (* ---------------- one message of the attribute section ---------------- *)
@@ -965,29 +984,20 @@ Proof.
   - apply IH; [assumption|]. intros m0 Hm0. apply Hwf. right. assumption.
 Qed.
 
-(* export order and stripping commute *)
-Lemma walk_of_strip : forall sigs t, walk_of (map strip_sig sigs) (strip_sig t) = map strip_sig (walk_of sigs t).
-Proof.
-  intros sigs t. unfold walk_of. cbn [s_gcount strip_sig]. rewrite children_strip, map_flat_map.
-  apply flat_map_ext_in_simple. intros id _. rewrite filter_map_comm. reflexivity.
-Qed.
-Lemma SX_strip_msg : forall m, SX (strip_msg m) = map strip_sig (SX m).
-Proof.
-  intros m. unfold SX. cbn [m_signals strip_msg]. rewrite filter_map_comm. change (fun x => is_topb (strip_sig x)) with is_topb.
-  induction (filter is_topb (m_signals m)) as [|t r IH]; [reflexivity|]. cbn [map flat_map]. rewrite map_app, IH. f_equal.
-  unfold tx. cbn [map]. change (is_muxb (strip_sig t)) with (is_muxb t). destruct (is_muxb t); [rewrite walk_of_strip|]; reflexivity.
-Qed.
 Lemma xbus_strip : forall b, xbus (strip_bus b) = strip_bus (xbus b).
 Proof.
   intros b. unfold xbus, strip_bus, set_b_messages. cbn [b_name b_desc b_attrs b_nodes b_enums b_messages]. f_equal.
   rewrite !map_map. apply map_ext. intros m. unfold xmsg. rewrite SX_strip_msg. reflexivity.
 Qed.
 
+Lemma many_of_strip : forall sigs, many_of (map strip_sig sigs) = many_of sigs.
+Proof. intros sigs. unfold many_of. rewrite !filter_map_comm, map_length. reflexivity. Qed.
+
 Lemma bus_exts_strip : forall b, bus_exts (strip_bus b) = bus_exts b.
 Proof.
   intros b. unfold bus_exts. cbn [b_messages strip_bus].
   induction (b_messages b) as [|m r IH]; [reflexivity|]. cbn [map flat_map]. rewrite IH. f_equal.
-  unfold msg_exts. cbn [m_canid m_signals strip_msg]. rewrite filter_map_comm. change (fun x => is_topb (strip_sig x)) with is_topb.
+  unfold msg_exts. cbn [m_canid m_signals strip_msg]. rewrite many_of_strip, filter_map_comm. change (fun x => is_topb (strip_sig x)) with is_topb.
   induction (filter is_topb (m_signals m)) as [|t q IHq]; [reflexivity|]. cbn [map flat_map]. rewrite IHq. f_equal.
   unfold texts. change (is_muxb (strip_sig t)) with (is_muxb t). destruct (is_muxb t); [|reflexivity].
   rewrite walk_of_strip. induction (walk_of (m_signals m) t) as [|c w IHw]; [reflexivity|]. cbn [map flat_map]. rewrite IHw. reflexivity.
@@ -1108,7 +1118,14 @@ Definition example_all_bus : bus :=
           mksignal 6 "fx" KStandard 8 (Some 1) [] 8 false fl_one fl_zero fl_zero (mkfl 255 0) "" 0 0 0 "fixed: in every group" fl_zero 0 [a_flt (mkfl 1 1)];
           mksignal 5 "z" KEnum 26 None [] 0 false fl_one fl_zero fl_zero fl_zero "" 0 0 0 "an enum beside the switch" fl_zero 0 [] ];
       mkmessage 512 "other" 1 BigEndian 0 20 0 0 "GW" [] "second" []
-        [ mksignal 0 "n" KEnum 0 None [] 0 false fl_one fl_zero fl_zero fl_zero "" 0 0 0 "" fl_zero 3 [a_flt (mkfl 1 1)] ] ].
+        [ mksignal 0 "n" KEnum 0 None [] 0 false fl_one fl_zero fl_zero fl_zero "" 0 0 0 "" fl_zero 3 [a_flt (mkfl 1 1)] ];
+      mkmessage 768 "dual" 8 LittleEndian 0 0 0 1 "GW" ["ECU 1"] "two multiplexers" []
+        [ mksignal 0 "m a" KMux 0 None [] 0 false fl_one fl_zero fl_zero fl_zero "" 0 2 8 "first switch" fl_zero 0 [a_flt (mkfl 1 1)];
+          std_sig 1 "ka" 0 8 (Some 0) [0] "";
+          mksignal 2 "m b" KMux 16 None [] 0 false fl_one fl_zero fl_zero fl_zero "" 0 2 8 "" fl_zero 2 [];
+          mksignal 3 "kb" KStandard 0 (Some 2) [1] 4 false fl_one fl_zero fl_zero (mkfl 255 0) "" 0 0 0 "under the second switch" (mkfl 1 1) 0 [a_flt (mkfl 3 (-1))];
+          std_sig 4 "kf" 4 4 (Some 2) [] "";
+          std_sig 5 "p" 40 8 None [] "" ] ].
 
 Example example_all_bus_ok : ambus example_all_bus.
 Proof.
@@ -1147,7 +1164,11 @@ Example example_all_bus_roundtrip :
                     ("mode_sel", None, [], fl_zero, 3, [ValFloat (mkfl 3 (-1))]);
                     ("c0", Some 1, [0; 2], fl_zero, 0, []); ("c1", Some 1, [1], mkfl 3 0, 0, [ValFloat (mkfl 5 (-1))]);
                     ("c_2", Some 1, [1], fl_zero, 2, []); ("fx", Some 1, [], fl_zero, 0, [ValFloat (mkfl 1 1)]) ]);
-                 (0, 0, 0, [], [("n", None, [], fl_zero, 3, [ValFloat (mkfl 1 1)])]) ].
+                 (0, 0, 0, [], [("n", None, [], fl_zero, 3, [ValFloat (mkfl 1 1)])]);
+                 (0, 0, 1, [],
+                  [ ("p", None, [], fl_zero, 0, []); ("m_b", None, [], fl_zero, 2, []);
+                    ("kb", Some 2, [1], mkfl 1 1, 0, [ValFloat (mkfl 3 (-1))]); ("kf", Some 2, [], fl_zero, 0, []);
+                    ("m_a", None, [], fl_zero, 0, [ValFloat (mkfl 1 1)]); ("ka", Some 0, [0], fl_zero, 0, []) ]) ].
 Proof. eexists. split; [vm_compute; reflexivity|]. split; vm_compute; reflexivity. Qed.
 
 (* ------------------------------------------------------------------------------------------
@@ -1223,7 +1244,7 @@ Proof.
   - split; [exact Hids|]. split; [exact Hnn|]. split.
     { rewrite Hall. eapply Forall_impl; [|exact Hps]. intros s [H1 [H2 [H3 [H4 [H5 [H6 H7]]]]]].
       refine (conj H1 (conj H2 (conj H3 (conj H4 (conj H5 (conj H6 _)))))). destruct (s_kind s); try assumption. destruct H7. }
-    split; [intros a b0 Ha0 _ Hma _; rewrite (Hnm a Ha0) in Hma; discriminate|].
+    split; [intros a Ha0 Hma; rewrite (Hnm a Ha0) in Hma; discriminate|].
     split; [intros c Hc0 Hct; rewrite <- Hall in Hc0; apply filter_In in Hc0; destruct Hc0 as [_ Hc0]; congruence|].
     intros c c' Hc0 _ Hct. rewrite <- Hall in Hc0. apply filter_In in Hc0. destruct Hc0 as [_ Hc0]. congruence.
   - rewrite Hall. exact Hlay.
